@@ -68,6 +68,44 @@ def run(run):
                 run.fail(what + ' (context lookup)', got, ans, [pc.line, req], {'objects': pc.objects, 'properties': pc.properties})
             if got2 != ans:
                 run.fail(what + ' (lattice lookup)', got2, ans, [pc.line, req], {'objects': pc.objects, 'properties': pc.properties})
+        # label dispatch: objects first, properties on KeyError, anything else KeyError
+        osn, psn = ','.join(pc.objects), ','.join(pc.properties)
+        mixes = []
+        for _ in range(4):
+            k = run.rng.randrange(4)
+            if k == 0:
+                items = [run.rng.choice(pc.objects), run.rng.choice(pc.properties)]
+            elif k == 1:
+                items = [run.rng.choice(pc.objects), 'nosuch']
+            elif k == 2:
+                items = ['nosuch']
+            else:
+                items = run.rng.sample(pc.properties, run.rng.randint(1, pc.m))
+            run.rng.shuffle(items)
+            mixes.append(items)
+        for items in mixes:
+            r = 'getitem %s %s %s' % (osn, psn, ','.join(items))
+            ans = d.ask(r)
+            with guard(run, 'context[%r]' % (items,), [pc.line, r], ans):
+                try:
+                    e, i = ctx[items]
+                    got = '%d %d' % (pc.omask(e), pc.pmask(i))
+                except KeyError:
+                    got = 'KeyError'
+            run.case(pc.line + '|' + r, nt)
+            if got != ans:
+                run.fail('context[%r] (label dispatch)' % (items,), got, ans, [pc.line, r], {'objects': pc.objects, 'properties': pc.properties})
+            if small:
+                r2 = 'lgetitem %s %s %s' % (osn, psn, ','.join(items))
+                ans2 = d.ask(r2)
+                with guard(run, 'lattice[%r]' % (items,), [pc.line, r2], ans2):
+                    try:
+                        c = L[tuple(items)]
+                        got2 = str(next((k for k, x in enumerate(concepts) if x is c), 'not-a-member'))
+                    except KeyError:
+                        got2 = 'KeyError'
+                if got2 != ans2:
+                    run.fail('lattice[%r] (label dispatch)' % (items,), got2, ans2, [pc.line, r2], {'objects': pc.objects, 'properties': pc.properties})
         if small:
             with guard(run, 'lattice[i] / lattice[()]', [pc.line]):
                 for k, c in enumerate(concepts):
